@@ -572,7 +572,7 @@ func (p *c13) Shrink(scAny any) []any {
 
 func (p *c13) Info() PropInfo {
 	return PropInfo{
-		Rule: "seeded schedules: N in {2,3,4,8,16} (every 97th run: 64) goroutines with distinct messages, optionally with SMTP AUTH on every connection (LOGIN, SCRAM-SHA-256, CRAM-MD5, PLAIN, auto-discovery) and optionally with one or two senders whose first or every recipient the server refuses, one or two whose body writer fails half way, one or two whose DATA command is refused, and one or two whose own connection is reset right after the server's 354 (their calls must fail, nothing of theirs may be committed, nobody else may notice), (single-part, or multipart with an attachment written in 7-byte chunks) on one Client in mode {all Send on one dialled connection, all DialAndSend, alternating}; the kernel decides at every lock, unlock, read-lock, read-unlock and connection read/write which enabled task runs next, by policy {uniform random, PCT with 1..3 priority change points, starve-one}; server-side read segmentation drawn per read; every run is non-trivial; distinct = distinct hashes of the sequence of (task, yield point) decisions actually taken",
+		Rule: "seeded schedules: N in {2,3,4,8,16} (every 97th run: 64) goroutines with distinct messages, optionally with SMTP AUTH on every connection (LOGIN, SCRAM-SHA-256, CRAM-MD5, PLAIN, auto-discovery) and optionally with one or two senders whose first or every recipient the server refuses, one or two whose body writer fails half way, one or two whose DATA command is refused, a sixth of the scenarios with a fallback port and an unreachable primary port, and one or two whose own connection is reset right after the server's 354 (their calls must fail, nothing of theirs may be committed, nobody else may notice), (single-part, or multipart with an attachment written in 7-byte chunks) on one Client in mode {all Send on one dialled connection, all DialAndSend, alternating}; the kernel decides at every lock, unlock, read-lock, read-unlock and connection read/write which enabled task runs next, by policy {uniform random, PCT with 1..3 priority change points, starve-one}; server-side read segmentation drawn per read; every run is non-trivial; distinct = distinct hashes of the sequence of (task, yield point) decisions actually taken",
 		Assumptions: []string{"interleavings are explored at the instrumented yield points (lock operations of packages mail and smtp, simulated connection reads and writes); between two yield points a task runs alone, unsynchronised accesses there are the race detector's job (it sees every access under -race, and the kernel creates no happens-before edge between tasks)",
 			"the seeded crypto/rand reader has a mutex of its own (a small masking source for races between calls that both draw randomness)",
 			"latencies are a few nanoseconds of virtual time in this build (tasks park by polling), timeouts never fire"},
